@@ -4,6 +4,7 @@ Property theorems only (statements are fixed; helper lemmas live in `Lemmas/Writ
 -/
 import StunVerif.Msg.Builder
 import StunVerif.Lemmas.Write
+import StunVerif.Gen.Attr
 namespace StunVerif.C12
 open StunVerif
 
@@ -99,6 +100,12 @@ theorem owned_same (b : Builder) (hb : BuilderOk b) :
   refine ⟨?_, h2⟩
   rw [builder_build _ h1, builder_build b hb', h2, h3]
   rfl
+
+/-- tie to the source: `padded_attr_len` as written in /repo now rounds up to a multiple of four -/
+theorem src_padded_attr_len (n : Nat) :
+    Gen.paddedAttrLen n = round4 n ∧ Gen.paddedAttrLen n = paddedAttrLen n := by
+  unfold Gen.paddedAttrLen paddedAttrLen round4 pad4
+  constructor <;> split <;> omega
 
 /-! Non-vacuity -/
 example : BuilderOk ⟨1, 5, [.typed (.username [0x61]), .raw ⟨0x8022, [1, 2, 3, 4, 5]⟩], [6, 0x8022]⟩ := by
